@@ -133,6 +133,9 @@ def r1_ascii_field(ctx):
         # every value is printed in an E field of exactly the announced width and digits
         data = [f for l in run.lines if l.is_data for f in l.txt.fields()]
         ok = bool(data) and all(f.conv in ("E", "e") and same(f.width, numlen) and same(f.prec, ndig) for f in data)
+        if not data:
+            ctx.error(f"{fn.name}: lines of printed values", fn, repr(run.lines[:4])[:300])
+            continue
         ctx.check(ok, f"{fn.name}: every value is printed as %<numlen>.<digits>E with the field width and digits the header announces", fn,
                   None if ok else [repr(f)[:120] for f in data[:3]])
         if layout == "dense":
@@ -199,9 +202,13 @@ def r2_headers(ctx):
             top = run.rows[1]
             need_rows = (digits_of(top) + (1 if neg else 0)) if top is not None else None
             ok = all(x is not None for x in w) and need_rows is not None and w[1] >= need_rows and w[0] >= 8
-            ctx.check(ok, f"{fn.name} ({run.regime()}): the header integer fields are wide enough for every admissible dimension"
-                          f"{' including the minus sign of the bigmat flag' if neg else ''}", run.header.node,
-                      None if ok else {"widths": w, "needed for rows": need_rows})
+            inst = (f"{fn.name} ({run.regime()}): the header integer fields are wide enough for every admissible dimension"
+                    f"{' including the minus sign of the bigmat flag' if neg else ''}")
+            if need_rows is None or any(x is None for x in w):
+                # no upper end of the regime (the refusal of too large a matrix was not seen) or a width that is not a constant: not decided
+                ctx.error(inst, run.header.node, {"widths": w, "largest admissible row count": top})
+            else:
+                ctx.check(ok, inst, run.header.node, None if ok else {"widths": w, "needed for rows": need_rows})
             lr = L.load(run)
             got = None
             if isinstance(lr.ret, tuple) and len(lr.ret) == 4 and lr.init is not None:
@@ -234,7 +241,8 @@ def r2_headers(ctx):
         for run in runs:
             neg = layout == "bigmat" or (layout == "nonbigmat" and run.rows[0] >= (L.rows4() or BASE))
             h = run.header
-            ok = h is not None and len(h.items) == 7 and [it.code for it in h.items] == ["i"] * 5 + ["s", "i"] and const_int(h.items[5].count) == 8
+            ok = h is not None and len(h.items) == 7 and [{"l": "i"}.get(it.code, it.code) for it in h.items] == ["i"] * 5 + ["s", "i"] \
+                and const_int(h.items[5].count) == 8
             if ok:
                 v = h.vals()
                 nmf = v[5]
@@ -488,7 +496,7 @@ def r3_string_headers(ctx):
                     ok = t0 is True and t1 is False
                     if ok and is_rat(a):
                         # the column number taken from the next (here: the sentinel) header is 0-based like the first one
-                        ok = same(a, b.subs({sym_name(run.col): S.COLS}))
+                        ok = sym_name(run.col) is not None and same(a, b.subs({sym_name(run.col): S.COLS}))
                     if is_bad(a) or is_bad(b):
                         ctx.fail(f"{rdfn.name} <- {tag}: reads columns until the sentinel (continues for a column below cols, stops at cols + 1)", n, (a if is_bad(a) else b).why)
                     else:
@@ -654,12 +662,21 @@ def r4_ranges_and_dispatch(ctx):
             it = run.strhdr.items[0]
             IS = it.value
             # domain: 0 <= r0 <= rows - 2 when a string of r1 rows follows ... the bound used: r0 <= rows4 - 2, r1 <= rows4 - 1
-            try:
-                hi = IS.subs({sym_name(run.r0): rows4 - 2, sym_name(run.r1): rows4 - 1})
-            except Unsupported:
+            a0, a1 = atom_id(run.r0), atom_id(run.r1)
+            if a0 is None or a1 is None or not is_rat(IS):
                 continue
-            if hi.is_const() and (worst is None or hi.const_value() > worst):
-                worst, code, node = int(hi.const_value()), it.code, run.strhdr.node
+            saved = {a: run.W.bounds.get(a) for a in (a0, a1)}
+            run.W.bounds[a0], run.W.bounds[a1] = (0, rows4 - 2), (1, rows4 - 1)
+            try:
+                hi = run.ev.rng(IS)[1]
+            finally:
+                for a, b in saved.items():
+                    if b is None:
+                        run.W.bounds.pop(a, None)
+                    else:
+                        run.W.bounds[a] = b
+            if hi is not None and (worst is None or hi > worst):
+                worst, code, node = int(hi), it.code, run.strhdr.node
     fnw = wfn(ctx, "binary", "nonbigmat")
     if worst is None or code not in STRUCT_RANGE:
         ctx.error("_write_binary_nonbigmat: packed IS / struct code", fnw, f"{worst} {code}")
@@ -725,6 +742,10 @@ def r7_input_canonical(ctx):
         ok = same(ret[0], F.sym("m"))
         ctx.check(ok, "_ensure_2d_dp: the tuple carries the matrix itself first (its shape sizes the header)", ev.returns[-1][1], nontrivial=False)
     # ---- _ensure_dp
+    DOUBLE = {"np.float64", "float", "np.double", "np.float_", "numpy.float64", "'float64'", "'f8'", "'d'", "'float'"}
+    CDOUBLE = {"np.complex128", "complex", "np.cdouble", "np.complex_", "numpy.complex128", "'complex128'", "'c16'", "'D'", "'complex'"}
+    NARROW = {"np.float32", "np.float16", "np.single", "np.half", "np.complex64", "np.csingle", "np.int32", "np.int64", "int", "np.longdouble", "np.clongdouble",
+              "'float32'", "'f4'", "'f'", "'complex64'", "'c8'", "'F'"}
     dp = S.func_of(ctx, "_ensure_dp")
     for cplx in (True, False):
         for already in (True, False):
@@ -740,8 +761,9 @@ def r7_input_canonical(ctx):
                     a, b = u[1]
                     for x, y in ((a, b), (b, a)):
                         ux = unfn(x)
-                        if ux and ux[0] == "attr:dtype" and sym_name(y) in ("np.complex128", "np.float64", "complex", "float"):
-                            is_t = sym_name(y) in (target, "complex" if cplx else "float")
+                        if ux and ux[0] == "attr:dtype" and sym_name(y) in (DOUBLE | CDOUBLE | NARROW):
+                            # a dtype name the rule knows: equal to the input's dtype only if it names the double-precision type of the scenario
+                            is_t = sym_name(y) in (CDOUBLE if cplx else DOUBLE)
                             eq = already and is_t
                             return eq if u[0] == "cmp:Eq" else not eq
                 return None
@@ -750,8 +772,9 @@ def r7_input_canonical(ctx):
             ev = S.run_func(W, dp, [F.sym("m")], "_ensure_dp")
             ret = ev.returns[-1][0] if ev.returns else None
             m = F.sym("m")
-            want = [F.fn("call:.astype", m, F.sym(target)), F.fn("call:.astype", m, F.sym("complex" if cplx else "float")),
-                    F.fn("call:.astype", m, F.fn("kw:dtype", F.sym(target)))]
+            want = []
+            for nm_ in sorted(CDOUBLE if cplx else DOUBLE):
+                want += [F.fn("call:.astype", m, F.sym(nm_)), F.fn("call:.astype", m, F.fn("kw:dtype", F.sym(nm_)))]
             if already:
                 want = [m] + want
             ok = ret is not None and not is_unknown(ret) and any(same(ret, w) for w in want)
@@ -1292,13 +1315,41 @@ def r9_no_byte_reinterpretation(ctx):
                "into the matrix)", meth.get("_loadop4_binary"))
 
 
+def guarded(rule):
+    """Safety net shared by all rules.  The evaluator records a *lowering gap* whenever it skips or drops part of an analysed function (a statement
+    kind it does not lower, a write whose value it could not build, writes / reads under a test it could not decide, a call of a module-level
+    object it does not model).  A comparison that fails on such an incomplete trace is not a provable disagreement: every failed obligation of
+    the rule that is not a listed known finding is recorded as "not decided" (exit 2) and the gaps are named once."""
+    def run(ctx):
+        n0 = len(ctx.obls)
+        try:
+            rule(ctx)
+        finally:
+            gaps = list(getattr(ctx, "_c04_gaps", None) or [])
+            if gaps:
+                from .core import load_known
+                known = {k["key"] for k in load_known() if k.get("property") == ctx.prop and k.get("status") == "known"}
+                for o in ctx.obls[n0:]:
+                    if o.status == "fail" and o.key not in known:
+                        o.status = "error"
+                        o.instance += " [not decided: the evaluation skipped a construct, see the lowering gaps]"
+                # a trace with a hole is never certified either: the gaps are an analysis error of their own (exit 2, never a silent pass)
+                if not getattr(ctx, "_c04_gaps_told", False):
+                    ctx._c04_gaps_told = True
+                    ctx.error("lowering gaps: constructs of the analysed functions the evaluator skipped (nothing that fails is reported as a violation "
+                              "while they are open)", gaps[0][0], [f"{w}: {y}" for w, y in gaps[:12]])
+    run.__name__ = rule.__name__
+    run.__doc__ = rule.__doc__
+    return run
+
+
 RULES = [
-    ("C04-R1", r1_ascii_field, 6),
-    ("C04-R2", r2_headers, 40),
-    ("C04-R3", r3_string_headers, 150),
-    ("C04-R4", r4_ranges_and_dispatch, 8),
-    ("C04-R7", r7_input_canonical, 14),
-    ("C04-R8", r8_symmetry_test, 4),
+    ("C04-R1", guarded(r1_ascii_field), 6),
+    ("C04-R2", guarded(r2_headers), 40),
+    ("C04-R3", guarded(r3_string_headers), 150),
+    ("C04-R4", guarded(r4_ranges_and_dispatch), 8),
+    ("C04-R7", guarded(r7_input_canonical), 14),
+    ("C04-R8", guarded(r8_symmetry_test), 4),
     ("C04-R9", r9_no_byte_reinterpretation, 2),
 ]
 LEVEL = "other"
